@@ -706,6 +706,10 @@ PPL::MIP_Problem::process_pending_constraints() {
     const dimension_type unfeasible_row = merge_split_variable(i);
     if (unfeasible_row != not_a_dimension()) {
       unfeasible_tableau_rows.push_back(unfeasible_row);
+      // Merging moved the current basic solution: the pending inequalities
+      // that were satisfied by the old one may now be violated.
+      std::fill(is_satisfied_inequality.begin(),
+                is_satisfied_inequality.end(), false);
     }
   }
 
